@@ -499,6 +499,18 @@ def targeted_setop_family():
                     if dist == "after":
                         pipe.append(Group([C(c) for c in lcols], Take(1)))
                     out.append((f"setop:{width}:{side}:{dist or 'plain'}:{fname}", Prog(pipe)))
+        # append next to a distinct: the UNION recogniser (distinct after -> UNION DISTINCT; distinct before must stay on the top only)
+        bottom = [From(un), Select(*cols)]
+        D = lambda: Group([C(c) for c in cols], Take(1))
+        out += [
+            (f"setop:{width}:append:distinct-after", Prog([From(tn), Select(*cols), Append(bottom), D()])),
+            (f"setop:{width}:append:distinct-before", Prog([From(tn), Select(*cols), D(), Append(bottom)])),
+            (f"setop:{width}:append:distinct-both", Prog([From(tn), Select(*cols), D(), Append(bottom), D()])),
+            (f"setop:{width}:append:distinct-after-filter", Prog([From(tn), Select(*cols), Append(bottom), D(), Filter(C("a") > 0)])),
+            (f"setop:{width}:append:filter-distinct", Prog([From(tn), Select(*cols), Append(bottom), Filter(C("a") > 0), D()])),
+            (f"setop:{width}:append:distinct-bottom", Prog([From(tn), Select(*cols), Append(bottom + [D()])])),
+            (f"setop:{width}:append:append-distinct", Prog([From(tn), Select(*cols), Append(bottom), Append([From(tn), Select(*cols)]), D()])),
+        ]
     return out
 
 
